@@ -667,6 +667,28 @@ def c14_refusals(seed, tier):
                                                         "untouched" if after == prior else "source" if (after is not None and after[:len(src)] == src) else "other"))
                         if os.path.exists(outp):
                             os.unlink(outp)
+            # block devices of every size below a source that consists of repeated chunks (unique data < source)
+            blk_a, blk_b = rng.randbytes(100), rng.randbytes(100)
+            rsrc = (blk_a + blk_b) * 4
+            rarch, rapath, _tok, _hl = make_archive(W, rng, rsrc, cfg=(["--fixed-size", "100"], "F:100"))
+            for dev_size in (50, 150, 200, 300, 450, 799, 800, 900):
+                for flags in ("force", "seed-output"):
+                    outp = W.fresh(".dev")
+                    prior = rng.randbytes(dev_size)
+                    with open(outp, "wb") as f:
+                        f.write(prior)
+                    cls, rc, so, se = clone_cli(W, rapath, outp, seed_output=(flags == "seed-output"), force=(flags == "force"), blockdev=True)
+                    after = read_file(outp)
+                    req = "cli-clone block device of %d bytes, source of %d bytes with repeated chunks, %s" % (dev_size, len(rsrc), flags)
+                    R.stat("device_size_rows")
+                    if dev_size < len(rsrc):
+                        if cls == "ok":
+                            R.fail("refusal-expected-but-clone-succeeded", req)
+                        if after != prior:
+                            R.fail("refused-operation-changed-the-output", req)
+                    elif cls != "ok" or after[:len(rsrc)] != rsrc or len(after) != dev_size:
+                        R.fail("block-device-output-wrong", req)
+                    os.unlink(outp)
             # compress: existing output without / with --force-create; invalid input
             for exists in (False, True):
                 for force in (False, True):
@@ -719,7 +741,15 @@ def c16_files(seed, tier):
             seed1 = W.write(edit_source(rng, src), ".seed1")
             seed2 = W.write(rng.randbytes(700), ".seed2")
             srv = None
-            modes = ["plain", "seeds", "stdin-seed", "in-place", "in-place+seeds", "verify", "pin", "http", "http+seed", "force", "blockdev"]
+            modes = ["plain", "seeds", "stdin-seed", "in-place", "in-place+seeds", "verify", "pin", "http", "http+seed", "force", "blockdev",
+                     "verify-mismatch", "verify-mismatch-in-place"]
+            # a well-formed archive whose recorded source checksum is wrong: --verify-output fails at the very end
+            from . import pyfmt
+            pa = pyfmt.parse_archive(arch)
+            dd = pa["dictionary"]
+            dd["source_checksum"] = bytes([dd["source_checksum"][0] ^ 1]) + dd["source_checksum"][1:]
+            bad_hdr = pyfmt.build_header(pyfmt.encode_dictionary(dd))
+            bad_path = W.write(bad_hdr + arch[pa["header_size"]:], ".badsum.cba")
             for mode in modes:
                 sub = os.path.join(W.dir, "m%d_%s" % (i, mode.replace("+", "_")))
                 os.makedirs(sub)
@@ -727,6 +757,14 @@ def c16_files(seed, tier):
                 before = set(os.listdir(sub))
                 kw = {}
                 archive_arg = apath
+                if mode.startswith("verify-mismatch"):
+                    archive_arg = bad_path
+                    kw["verify_output"] = True
+                    if mode.endswith("in-place"):
+                        kw["seed_output"] = True
+                        with open(outp, "wb") as f:
+                            f.write(edit_source(rng, src))
+                        before = set(os.listdir(sub))
                 if mode in ("in-place", "in-place+seeds", "force", "blockdev"):
                     with open(outp, "wb") as f:
                         f.write(edit_source(rng, src) + (b"\0" * (len(src) + 100) if mode == "blockdev" else b""))
@@ -759,7 +797,12 @@ def c16_files(seed, tier):
                 tp = _interesting(touched_paths(ev), W.dir)
                 req = "cli-clone-files mode=%s" % mode
                 R.stat("clone_modes")
-                if cls != "ok":
+                if mode.startswith("verify-mismatch"):
+                    if cls != "err":
+                        R.fail("verify-output-mismatch-ended-in-%s" % cls, req)
+                    if not os.path.exists(outp):
+                        R.fail("clone-removed-the-output", req)
+                elif cls != "ok":
                     R.fail("clone-%s-in-mode" % cls, req + " :: " + se.decode(errors="replace")[-150:].replace("\n", "|"))
                 others = {p: sorted(v) for p, v in tp.items() if p != outp}
                 if others:
@@ -770,7 +813,8 @@ def c16_files(seed, tier):
                 if after - before - {"output.img"}:
                     R.fail("clone-left-extra-files", req + " :: " + repr(sorted(after - before)))
                 intents = ";".join(sorted(tp.get(outp, [])))
-                R.case("cli-clone-files %s" % mode, "output=%s others=%d" % (intents, len(others)))
+                if not mode.startswith("verify-mismatch"):
+                    R.case("cli-clone-files %s" % mode, "output=%s others=%d" % (intents, len(others)))
                 os.unlink(log)
             # compress: exactly one new file, temp created then removed
             for mode in ("file-input", "stdin-input", "force"):
@@ -1458,6 +1502,25 @@ def c15_cli(seed, tier):
             # the model's verdict on opening the same bytes
             if declared is None or declared < 2 ** 20:
                 R.case("try-init %s" % hx(data), "__class__:" + ("ok" if classes[0] == "ok" else "invalid-or-reader-err"))
+            os.unlink(apath)
+        # a large file (> 1 MiB, so that the local reader's first buffer fills) with a forged dictionary size
+        big_src = rng.randbytes(1 << 20) + bytes(600000)
+        big_arch, _d = pyfmt.encode_archive(big_src, random_cut(rng, len(big_src)), (1, 5, 16, 512, 16), 8, rng, freedoms=False)
+        for declared in (2 ** 62, 2 ** 40, 2 ** 32, 2 ** 63 + 5, 2 ** 64 - 73):
+            forged = bytearray(big_arch)
+            forged[6:14] = declared.to_bytes(8, "little")
+            apath = W.write(bytes(forged), ".forged.cba")
+            for cmd in ("info", "clone"):
+                outp = W.fresh(".out")
+                t0 = time.time()
+                if cmd == "info":
+                    cls, rc, so, se = run_bita(["info", apath], timeout=60)
+                else:
+                    cls, rc, so, se = clone_cli(W, apath, outp, timeout=60)
+                R.stat("forged_size_runs")
+                if cls not in ("ok", "err"):
+                    R.fail("crafted-archive-%s" % cls, "bita %s on a %d byte file declaring a dictionary of %d bytes :: %s" % (
+                        cmd, len(forged), declared, se.decode(errors="replace")[-120:].replace("\n", "|")))
             os.unlink(apath)
         # servers: surplus bytes, empty bodies, wrong status, for header and chunk requests
         arch, d = pyfmt.encode_archive(base_src, sizes, (1, 5, 16, 512, 16), 8, rng, freedoms=False)
